@@ -14,6 +14,10 @@ from hypothesis import strategies as st
 from ..oracles import gaussians as G
 from ..oracles import overlap as O
 
+class DegenerateBasis(Exception):
+    """The generated basis is (numerically) linearly dependent; the case is skipped."""
+
+
 NAMED_CONVENTIONS = ["HORTON2", "CCA", "fchk", "molden", "wfn", "mwfn", "cp2klog"]
 
 
@@ -72,11 +76,13 @@ def st_basis(
         if nbasis + size > max_nbasis and shells:
             break
         nbasis += size
+        # contractions of one shell with the same (l, kind) need at least as many primitives
+        mult = max(sum(1 for c in cons if c == con) for con in cons)
         shells.append(
             {
                 "icenter": draw(st.integers(0, ncenter - 1)),
                 "cons": cons,
-                "nexp": draw(st.integers(1, max_prim)),
+                "nexp": draw(st.integers(min(mult, max(max_prim, mult)), max(max_prim, mult))),
             }
         )
     return {
@@ -232,6 +238,9 @@ def build_mo(mospec, plain, overlap=None):
     rng = np.random.Generator(np.random.PCG64(mospec["mo_seed"]))
     if overlap is None:
         overlap = O.overlap(plain)
+    evals = np.linalg.eigvalsh(overlap)
+    if evals.min() < 1e-6 * evals.max():
+        raise DegenerateBasis
     nbasis = overlap.shape[0]
     kind = mospec["kind"]
 
